@@ -17,7 +17,7 @@
 From Coq Require Import NArith List Bool.
 Import ListNotations.
 From HV Require Import lib.Harness model.Validity model.Builder spec.BuilderS proofs.BuilderP proofs.BuilderExtP
-  proofs.BuilderFrameP proofs.BuilderRulesP.
+  spec.BuilderWFS proofs.BuilderFrameP proofs.BuilderRulesP proofs.BuilderTypeP.
 
 (* Proved for ALL programs of the modelled language, with no well-formedness premise: whenever the
    builder calls do not raise, the serialised document satisfies
@@ -53,6 +53,31 @@ Theorem C01_builder_io_rows_root_func : forall tys p g,
   r_io_rows g = true /\ r_root_no_edges g = true /\ r_no_edge_into_func tys g = true /\ r_cfg_edges g = true.
 Proof. exact run_io_root_func. Qed.
 Print Assumptions C01_builder_io_rows_root_func.
+
+(* Second pass.  For every WELL-TYPED program (spec/BuilderWFS.v: wt_prog, a boolean computed from the program
+   text alone: used wires are bound and typed, the arguments of a fixed-signature operation or Tag have its input
+   row, partial operations can be completed, Tags and constants agree with the type table, add_state_order does
+   not start at Output / end at Input) whose builder calls do not raise:
+     r_port_counts (rule 5)   : every edge attaches to a port its operation has;
+     r_edge_kinds (rule 7)    : same kind and type at both ends of every edge;
+     r_derived_types (rule 4) : the sum type carried by a Tag is the table entry of its rows;
+     r_const (rule 17)        : constants inhabit their type.
+   The premise is needed: hugr-py's add_op wires arguments of any type to an operation with a fixed signature
+   without raising. *)
+Theorem C01_builder_ports_kinds : forall tys p g,
+  wt_prog tys p = true -> run tys p = Ok g ->
+  r_port_counts g = true /\ r_edge_kinds g = true /\ r_derived_types tys g = true /\ r_const tys [] g = true.
+Proof. exact run_ports_kinds. Qed.
+Print Assumptions C01_builder_ports_kinds.
+
+(* the premises are satisfiable by a non-trivial program: constant at the root, nested region with an Ext wire,
+   MakeTuple / UnpackTuple / Noop, Tag, fixed-signature op, linear value, explicit order edge; 13 nodes *)
+Theorem C01_wf_example : wt_prog ex2_tys ex2_prog = true /\
+  exists g, run ex2_tys ex2_prog = Ok g /\
+    valid {| v_tys := ex2_tys; v_main := g; v_subs := [] |} = true /\ length (g_nodes g) = 13%nat /\
+    existsb (fun e => negb (optN_eqb (parent_of g (e_src e)) (parent_of g (e_dst e)))) (g_edges g) = true.
+Proof. exact ex2_runs. Qed.
+Print Assumptions C01_wf_example.
 
 (* the theorem is not vacuous: a program with a nested region and a non-local wire runs in the model and
    the whole `valid` accepts its document *)
